@@ -39,6 +39,13 @@ func c14Alphabet() []seqSym {
 		sy("SET", "k1", "b", "EX", "0.73", "STRING", `{"x":1}`),
 		sy("SET", "k0", "keep", "EX", "900.5", "POINT", "1", "1"), // an earlier-sorting collection whose deadline is far away
 		sy("SET", "k3", "z", "EX", "0.73", "POINT", "2", "2"),
+		sy("SET", "k1", "a", "EX", "0", "POINT", "7", "7"),    // a deadline that has already passed:
+		sy("SET", "k1", "a", "EX", "-2.5", "POINT", "7", "7"), // gone at the next sweep, not persistent
+		sy("SET", "k1", "a", "EX", "10000000000", "POINT", "7", "7"), // beyond the int64 nanosecond range: never early
+		sy("EXPIRE", "k1", "a", "10000000000"),
+		sy(append([]string{"SETCHAN", "chx", "EX", "10000000000"}, fence...)...),
+		sy("READONLY", "yes"), // deadlines keep passing on a read-only leader
+		sy("READONLY", "no"),
 		sy("EXPIRE", "k1", "a", "0.73"),
 		sy("EXPIRE", "k1", "a", "2.73"),
 		sy("PERSIST", "k1", "a"),
@@ -268,6 +275,18 @@ func checkC14(job *Job, res *Result) {
 				}
 				// 6. restart: what expired stays gone
 				if len(e.Path)+1 == depth || alpha[e.Sym].Args[0] == "@ADVANCE" {
+					// an object that is overdue but not swept yet may or may not survive
+					// the restart: let the sweeper take it first
+					for _, k := range sortedKeys(st.Cols) {
+						for _, o := range st.Cols[k] {
+							if o.Dead && o.TTL <= 0 {
+								vsched.Sleep(int64(450 * stdtime.Millisecond))
+								vsched.Quiesce()
+								c.Do("PING")
+								break
+							}
+						}
+					}
 					before := fullDump(c)
 					c.Close()
 					for _, s := range subs {
